@@ -249,7 +249,7 @@ func (vc *VC) wfOf(v string, t types.Type, alloc string, depth int) string {
 		return and(app("<=", app("s.arr", v), alloc), app(">=", app("s.arr", v), "0"), app(">=", app("s.off", v), "0"), app(">=", app("s.len", v), "0"),
 			app(">=", app("s.cap", v), app("s.len", v)), app("<=", app("s.cap", v), "9223372036854775807"))
 	case *types.Interface:
-		return and(app(">=", app("i.tag", v), "0"), app(">=", app("i.val", v), "0"), app("<=", app("i.val", v), alloc))
+		return and(app(">=", app("i.tag", v), "0"), app(">=", app("i.val", v), "0"), app("<=", app("i.val", v), alloc), implies(eq(app("i.tag", v), "0"), eq(app("i.val", v), "0")))
 	case *types.Pointer, *types.Map, *types.Chan, *types.Signature:
 		return and(app(">=", v, "0"), app("<=", v, alloc))
 	case *types.Basic:
@@ -510,7 +510,7 @@ func (vc *VC) allocated(h *Heap, t Term) string {
 	a := vc.get(h, "$alloc")
 	switch t.Sort {
 	case SIface:
-		return and(app("<=", app("i.val", t.S), a), app(">=", app("i.tag", t.S), "0"), app(">=", app("i.val", t.S), "0"))
+		return and(app("<=", app("i.val", t.S), a), app(">=", app("i.tag", t.S), "0"), app(">=", app("i.val", t.S), "0"), implies(eq(app("i.tag", t.S), "0"), eq(app("i.val", t.S), "0")))
 	case SSlice:
 		return and(app("<=", app("s.arr", t.S), a), app(">=", app("s.arr", t.S), "0"), app(">=", app("s.off", t.S), "0"), app(">=", app("s.len", t.S), "0"), app(">=", app("s.cap", t.S), app("s.len", t.S)), app("<=", app("s.cap", t.S), "9223372036854775807"))
 	case SInt:
